@@ -5,16 +5,23 @@ package stdlib
 
 // ---- C46: the Cadence-facing RLP wrappers fail only with their user error type (or a metering error);
 // no Go run-time panic and no internal error, whatever the input bytes.
+// The wrappers fail only with their user error type or a metering error, and a normal return means: the bytes were
+// obtained, the decoder accepted them, and it consumed all of them (no trailing bytes) - stated over the results of
+// the calls the path made (called / callarg / callres).
 //@ func RLPDecodeString
 //@   mode bv
 //@   props C46
 //@   nofail
 //@   env RLPDecodeStringError MemoryMeteringError ComputationMeteringError
+//@   ensures[C46] called("interpreter.ByteArrayValueToByteSlice#1") && callres("interpreter.ByteArrayValueToByteSlice#1", 1) == nil
+//@   ensures[C46] called("rlp.DecodeString#1") && callres("rlp.DecodeString#1", 2) == nil && callres("rlp.DecodeString#1", 1) == len(callarg("rlp.DecodeString#1", 0))
 //@ func RLPDecodeList
 //@   mode bv
 //@   props C46
 //@   nofail
 //@   env RLPDecodeListError MemoryMeteringError ComputationMeteringError
+//@   ensures[C46] called("interpreter.ByteArrayValueToByteSlice#1") && callres("interpreter.ByteArrayValueToByteSlice#1", 1) == nil
+//@   ensures[C46] called("rlp.DecodeList#1") && callres("rlp.DecodeList#1", 2) == nil && callres("rlp.DecodeList#1", 1) == len(callarg("rlp.DecodeList#1", 0))
 
 // ---- C47: revertibleRandom. The random source is the host's: ReadRandom fills exactly the slice it is given
 // (assumed). Ghost state records the last draw: its length, its big-endian value, and the number of draws.
